@@ -298,8 +298,78 @@ fn run_csv<S: Settings>(_settings: &S, _sc: &StoreScenario, _h: &Histories, _ops
     out.probe("csv_not_implemented", 1);
 }
 
-fn run_zarr_async<S: Settings>(_settings: &S, _sc: &StoreScenario, _h: &Histories, _ops: &[Op], _lens: &[usize], out: &mut RunOutcome) {
-    out.probe("zarr_async_not_implemented", 1);
+thread_local! {
+    static TOKIO_RT: std::cell::RefCell<Option<tokio::runtime::Runtime>> = const { std::cell::RefCell::new(None) };
+}
+
+fn run_zarr_async<S: Settings>(settings: &S, sc: &StoreScenario, h: &Histories, ops: &[Op], lens: &[usize], out: &mut RunOutcome) {
+    use crate::asyncstore::AsyncDelayStore;
+    let prop = sc.prop.as_str();
+    // one small multi-thread runtime per run thread (the writer calls Handle::block_on from this thread)
+    let rt = tokio::runtime::Builder::new_multi_thread().worker_threads(2).enable_time().build().unwrap_or_else(|e| crate::driver::harness_error(&format!("tokio runtime: {e}")));
+    let store = Arc::new(AsyncDelayStore::new(sc.ops_seed, sc.fail_write, if prop == "C15" { 12 } else { 3 }));
+    let cfg = nuts_rs::ZarrAsyncConfig::new(rt.handle().clone(), store.clone()).with_chunk_size(sc.chunk_size).store_warmup(sc.store_warmup);
+    let hh = h;
+    let st2 = store.clone();
+    let flushed: std::cell::RefCell<Vec<usize>> = std::cell::RefCell::new(vec![0; lens.len()]);
+    let flushed_ref = &flushed;
+    let flush_count: std::cell::RefCell<u64> = std::cell::RefCell::new(0);
+    let flush_count_ref = &flush_count;
+    store.armed.store(false, std::sync::atomic::Ordering::SeqCst);
+    let arm = store.clone();
+    let mut armed_once = false;
+    let mut hooks = DriveHooks {
+        on_flush: Box::new(move |c: usize, done: &[usize], out: &mut RunOutcome| {
+            if prop != "C15" {
+                return;
+            }
+            flushed_ref.borrow_mut()[c] = done[c];
+            // what a fresh reader sees at the instant flush() returned
+            let snap = snapshot_store(st2.inner.as_ref());
+            let upto = flushed_ref.borrow().clone();
+            let n_flush = { let mut k = flush_count_ref.borrow_mut(); *k += 1; *k };
+            let only = [c];
+            let chains: Option<&[usize]> = if n_flush % 3 == 0 { None } else { Some(&only) };
+            zarr_checks("zarr_async", "C15", &format!("fresh reader after flush of chain {c} at draws {:?}", done), snap, hh, &upto, chains, sc, false, out);
+            out.probe("async_flush_points_checked", 1);
+        }),
+        on_inspect: Box::new(|_f: (), _d: &[usize], _o: &mut RunOutcome| {}),
+    };
+    // delays and faults start after the trace has been created (metadata writes are not interesting)
+    let _ = &mut armed_once;
+    arm.armed.store(true, std::sync::atomic::Ordering::SeqCst);
+    let end = drive(settings, sc, cfg, h, ops, &mut hooks, out);
+    drop(hooks);
+    let failed_write = store.failed.load(std::sync::atomic::Ordering::SeqCst);
+    out.probe("async_store_writes", store.writes.load(std::sync::atomic::Ordering::SeqCst));
+    out.probe("async_store_writes_delayed", store.delayed.load(std::sync::atomic::Ordering::SeqCst));
+    if failed_write {
+        out.probe("async_store_write_fault_fired", 1);
+        match &end {
+            DriveEnd::Panicked(m, site) => out.violate(format!("{prop}/zarr_async/panic_on_store_error/{site}"), m.chars().take(200).collect::<String>()),
+            DriveEnd::Finalized(None, _) => out.violate(format!("{prop}/zarr_async/store_error_swallowed"), "a store write failed but every call returned Ok"),
+            _ => {}
+        }
+        let upto = flushed.borrow().clone();
+        if upto.iter().any(|n| *n > 0) {
+            // let sleeping writes finish before looking (they may legitimately still be in flight after an error)
+            std::thread::sleep(std::time::Duration::from_millis(40));
+            let acked: Vec<usize> = (0..upto.len()).filter(|c| upto[*c] > 0).collect();
+            zarr_checks("zarr_async", prop, "store after a failed write (acknowledged prefixes)", snapshot_store(store.inner.as_ref()), h, &upto, Some(&acked), sc, false, out);
+        }
+    } else {
+        let bad = if prop == "C14" { end_violation("zarr_async", &end, out) } else { !matches!(end, DriveEnd::Finalized(None, _)) };
+        if prop == "C15" {
+            if let DriveEnd::Panicked(m, site) | DriveEnd::Failed(m, site) = &end {
+                out.violate(format!("C15/zarr_async/call_failed/{site}"), m.chars().take(200).collect::<String>());
+            }
+        }
+        if !bad {
+            // right after finalize returned: everything must be in the store
+            zarr_checks("zarr_async", prop, "fresh reader after finalize", snapshot_store(store.inner.as_ref()), h, lens, None, sc, prop == "C14", out);
+        }
+    }
+    drop(rt);
 }
 
 impl Scenario for StoreScenario {
